@@ -138,6 +138,25 @@ def classify_for(C, s):
 def is_blank(C, s):
     ap = assign_parts(s)
     if not ap:
+        # a helper of the same class whose body is one blanking store: the store, with the call's arguments substituted
+        e = strip_casts(s.get('e')) if s.get('k') == 'Expr' else None
+        if e is not None and e.get('k') == 'MCall' and e.get('inrepo') and e.get('fk') and strip_casts(e['obj']).get('k') == 'This':
+            callee = C.fx.functions.get(e['fk']) if hasattr(C, 'fx') else None
+            if callee is not None and callee.get('body') is not None:
+                st_ = [x for x in live(callee['body'])]
+                if len(st_) == 1:
+                    inner = is_blank(C, st_[0])
+                    if inner:
+                        env = {p['id']: (e['args'][i] if i < len(e['args']) else None) for i, p in enumerate(callee.get('params', []))}
+
+                        def subst(n):
+                            n0 = strip_casts(n)
+                            if n0.get('k') == 'Ref' and n0.get('id') in env and env[n0['id']] is not None:
+                                return env[n0['id']]
+                            if isinstance(n, dict):
+                                return {k_: (subst(v_) if isinstance(v_, dict) else [subst(y_) if isinstance(y_, dict) else y_ for y_ in v_] if isinstance(v_, list) else v_) for k_, v_ in n.items()}
+                            return n
+                        return subst(inner[0]), subst(inner[1])
         return None
     l = strip_casts(ap[0])
     if l['k'] == 'Op' and l['op'] == '[]' and pp(strip_casts(l['args'][0])) == 'this.buffer_':
@@ -291,6 +310,7 @@ def check_translate(fx, R, gq, dim):
     C = Ctx(fx, f)
     body = live(f['body'])
     blocks = {}
+    unrecognised = False
     try:
         for s in body:
             if s['k'] == 'Decl':
@@ -308,15 +328,32 @@ def check_translate(fx, R, gq, dim):
                 if isinstance(c, sp.Ne) and c.args[1] == 0 and isinstance(c.args[0], sp.Symbol):
                     symb = c.args[0]
                 if symb is None or not symb.name.startswith('indexOffset[') or s.get('e') is not None:
-                    R.undecided('O3', '%s::translate' % cname, 'top-level branch `%s` is not an axis block `if (offset[k])`' % pp(s['c']))
+                    # an axis block driven by a REDUCED offset (offset % n): the slab entering the window is min(|d|, n) wide, not |d mod n|
+                    red = None
+                    if isinstance(c, sp.Ne) and c.args[1] == 0 and isinstance(c.args[0], sp.Basic):
+                        offs_ = [a_ for a_ in c.args[0].free_symbols if a_.name.startswith('indexOffset[')]
+                        if len(offs_) == 1 and (c.args[0].has(sp.Mod) or any('rem' in str(f_.func) or 'mod' in str(f_.func).lower() for f_ in c.args[0].atoms(sp.core.function.AppliedUndef))):
+                            red = offs_[0]
+                    if red is not None:
+                        k_ = int(red.name[len('indexOffset['):-1])
+                        R.violated('O3', '%s::translate:axis%d:reduced-offset' % (cname, k_), 'the blanking of axis %d is driven by `%s`, the offset reduced modulo the number of cells: a translation by d cells moves '
+                                   'min(|d|, n) columns out of the window, but only |d mod n| are blanked - for |d| >= n (a whole turn or more, inside the quantifier) stale cells survive although their map '
+                                   'location has left the window' % (k_, c.args[0]), fx.rel(s['loc']), 'E-ORD')
+                    else:
+                        R.undecided('O3', '%s::translate' % cname, 'top-level branch `%s` is not an axis block `if (offset[k])`' % pp(s['c']))
+                    unrecognised = True
                     continue
                 k = int(symb.name[len('indexOffset['):-1])
                 blocks.setdefault(k, []).append(s)
             elif s['k'] in ('Expr', 'For'):
                 R.undecided('O3', '%s::translate' % cname, 'statement outside the axis blocks: %s' % s['loc'])
+                unrecognised = True
         for k in range(dim):
             if k not in blocks:
-                R.violated('O3', '%s::translate:axis%d' % (cname, k), 'no block handles a translation along axis %d' % k, fx.rel(f['loc']), 'E-ORD')
+                if unrecognised:
+                    R.undecided('O3', '%s::translate:axis%d' % (cname, k), 'no enumerated axis block for axis %d (the function has statements this rule does not read)' % k)
+                else:
+                    R.violated('O3', '%s::translate:axis%d' % (cname, k), 'no block handles a translation along axis %d' % k, fx.rel(f['loc']), 'E-ORD')
                 continue
             if len(blocks[k]) != 1:
                 R.undecided('O3', '%s::translate:axis%d' % (cname, k), '%d blocks for one axis' % len(blocks[k]))
@@ -349,8 +386,39 @@ def signed_mod_to_unsigned(g):
     lower bound of each additive term in units of n: unsigned-origin >= 0, (x % n) > -n, n itself = n."""
     out = []
     gb = prune(g['body'])
+    # which signed % values are converted to an unsigned integer (cast, unsigned local / member on the receiving side)?
+    to_unsigned = set()
+
+    def mark(node, unsigned_ctx):
+        if node is None or not isinstance(node, dict):
+            return
+        k_ = node.get('k')
+        if k_ == 'Bin' and node.get('op') == '%' and node['t'].get('signed') and unsigned_ctx:
+            to_unsigned.add(id(node))
+        if k_ == 'Cast':
+            t_ = node.get('t') or {}
+            mark(node.get('e'), t_.get('c') == 'int' and t_.get('signed') is False)
+            return
+        if k_ == 'Decl':
+            for v_ in node['vars']:
+                t_ = v_.get('t') or {}
+                mark(v_.get('init'), t_.get('c') == 'int' and t_.get('signed') is False)
+            return
+        if k_ == 'Bin' and node.get('op') in ('=', '+=', '-='):
+            lt_ = (node.get('l') or {}).get('t') or {}
+            mark(node.get('l'), False)
+            mark(node.get('r'), lt_.get('c') == 'int' and lt_.get('signed') is False)
+            return
+        if k_ == 'Bin' and node.get('op') in ('+', '-', '*'):
+            mark(node.get('l'), unsigned_ctx)
+            mark(node.get('r'), unsigned_ctx)
+            return
+        from ..tree import children as _ch
+        for c_ in _ch(node):
+            mark(c_, False)
+    mark(gb, False)
     for x in walk(gb):
-        if x.get('k') == 'Bin' and x['op'] == '%' and x['t'].get('signed'):
+        if x.get('k') == 'Bin' and x['op'] == '%' and x['t'].get('signed') and id(x) in to_unsigned:
             # is it the outermost signed % (i.e. the one whose value leaves as the result)?
             terms = eint.additive_terms(x['l'])
             mstr = pp(strip_casts(x['r']))
@@ -518,8 +586,10 @@ def check_block(fx, R, C, cname, f, k, dim, blk):
         # body order and advance
         kinds = [b[0] for b in ev['body']]
         want = ['blank', 'advance'] if ev['sign'] == '+' else ['advance', 'blank']
-        R.check(kinds == want, 'O5', li + ':order', 'loop body is %s, expected %s (d>0: blank then step; d<0: step back then blank)' % (kinds, want),
-                ' then '.join(want), fx.rel(ev['loc']), 'E-STATE')
+        R.form(kinds == want, 'O5', li + ':order', 'loop body is %s, not the enumerated %s' % (kinds, want), ' then '.join(want), fx.rel(ev['loc']), 'E-STATE',
+               facts=[(sorted(kinds) == sorted(want) and kinds != want, 'loop body is %s, the statement needs %s (d>0: blank then step; d<0: step back then blank): the cell blanked is the one next to the '
+                       'entering slab' % (kinds, want)),
+                      (kinds == ['advance'] and not any('buffer_' in pp(x) or x.get('k') in ('MCall', 'Call') for x in walk(ev.get('node') or {})), 'the loop only advances the index: nothing is blanked')])
         for b in ev['body']:
             if b[0] == 'advance':
                 expr = b[1]
@@ -534,8 +604,12 @@ def check_block(fx, R, C, cname, f, k, dim, blk):
                 okarg = a['k'] == 'MCall' and a.get('m') == 'computeCellLinearIndex_' and len(a['args']) == 1 and pp(strip_casts(a['args'][0])) == 'cellIndexes'
                 R.check(okarg, 'O4', li + ':blank-target', 'blanking store addresses %s instead of buffer_[computeCellLinearIndex_(cellIndexes)]' % pp(arg),
                         'buffer_[computeCellLinearIndex_(logical indexes)]', fx.rel(b[3]), 'E-STATE')
-                R.check(pp(strip_casts(rhs)) == 'emptyValue', 'O5', li + ':blank-value', 'blanked with %s, not with the empty value of this translation' % pp(rhs),
-                        'blanked with the supplied empty value', fx.rel(b[3]), 'E-STATE')
+                is_default = rhs.get('k') == 'DefaultArg' or (rhs.get('k') == 'Cast' and strip_casts(rhs).get('k') == 'DefaultArg')
+                val_txt = pp(strip_casts(rhs)) if not is_default else 'the DEFAULT argument of the helper (%s)' % pp(rhs)
+                R.form(pp(strip_casts(rhs)) == 'emptyValue' and not is_default, 'O5', li + ':blank-value', 'blanking value %s not recognised' % val_txt,
+                       'blanked with the supplied empty value', fx.rel(b[3]), 'E-STATE',
+                       facts=[(is_default, 'the entering cells of this loop are blanked with %s, not with the empty value passed to this translate() call: with a non-default empty value they read the wrong value' % val_txt),
+                              (rhs.get('k') in ('Int', 'Float', 'ValueInit', 'Construct') and not is_default, 'the entering cells of this loop are blanked with the constant %s, not with the empty value of this translation' % pp(rhs))])
                 axes = sorted(l[1] for l in b[2] if l[0] == 'range')
                 need = [j for j in range(dim) if j != k]
                 R.check(axes == need, 'O6', li + ':slab', 'blanking store is nested in full-range loops over axes %s, expected %s' % (axes, need),
